@@ -253,6 +253,15 @@ func (c *Conn) serve() {
 }
 
 func (c *Conn) pushFramesLoop() {
+	// failf panics; this goroutine runs outside serve's recover, so an unsupported pixel format
+	// requested by the client would otherwise take the whole process down
+	defer func() {
+		if e := recover(); e != nil {
+			log.Debugf("Client disconnect: %v", e)
+			c.c.Close()
+		}
+	}()
+
 	for {
 		select {
 		case ur, ok := <-c.fbupc:
